@@ -353,7 +353,9 @@ def translate_sample():
     lab, uni = _zip_roles(loop, 'sample')
     _need(len(loop.body) == 1 and isinstance(loop.body[0], ast.If), 'sample loop body: expected a single if/else')
     br = loop.body[0]
-    _need(_u(br.test) == f'conditions and {lab} in conditions', f'sample: branch test `{_u(br.test)}`')
+    # with conditions=None both accepted guards are false, so the else branch is the unconditional sampler
+    _need(_u(br.test) in (f'conditions and {lab} in conditions', f'conditions is not None and {lab} in conditions'),
+          f'sample: branch test `{_u(br.test)}`')
     eb = br.orelse
     _need(len(eb) == 2, 'sample: unconditional branch should have 2 statements')
     c1, c2 = eb
@@ -389,7 +391,7 @@ Section GmSample.
     if negb (forallb (fun r => length r =? length {hdr}) {smp}) then SErr ValueError_shape
     else SOk ({hdr}, {smp}).
 
-  (* for {lab}, {uni} in zip(self.columns, self.univariates):      [conditions is None: the else branch]
+  (* for {lab}, {uni} in zip(self.columns, self.univariates):      [if {_u(br.test)}: ... else: -- conditions is None: the else branch]
          {cv} = stats.norm.cdf({sv}[{lab}]); {out}[{lab}] = {uni}.percent_point({cv}) *)
   Fixpoint gm_sample_loop (hdr : list label) (rws : list (list Zt))
            (cu : list (label * (U -> V))) ({out} : list (label * list V))
@@ -421,6 +423,88 @@ End GmSample.
 '''
 
 
+def translate_fit():
+    """GaussianMultivariate._fit_columns and the attribute stores of fit: label j and univariate j are appended in the
+    same iteration of `for column_name, column in X.items()`, and fit stores the two lists unchanged."""
+    _, _, f = P.find_method(GAUSS, 'GaussianMultivariate', '_fit_columns')
+    _need(not f.decorator_list, '_fit_columns is decorated')
+    _plain_args(f, ['self', 'X'])
+
+    def nolog(stmts):
+        return [s for s in stmts if not (isinstance(s, ast.Expr) and isinstance(s.value, ast.Call) and _u(s.value.func).startswith('LOGGER.'))]
+    b = nolog(_body(f))
+    _need(len(b) == 4, '_fit_columns: expected two list initialisations, a loop and a return; found ' + ' ;; '.join(_u(s)[:40] for s in b))
+    accs = []
+    for s in b[:2]:
+        _need(isinstance(s, ast.Assign) and isinstance(s.targets[0], ast.Name) and _u(s.value) == '[]', '_fit_columns: `' + _u(s) + '`')
+        accs.append(s.targets[0].id)
+    loop = b[2]
+    _need(isinstance(loop, ast.For) and not loop.orelse and _u(loop.iter) == 'X.items()' and isinstance(loop.target, ast.Tuple)
+          and len(loop.target.elts) == 2 and all(isinstance(e, ast.Name) for e in loop.target.elts),
+          '_fit_columns: loop header `for ' + _u(loop.target) + ' in ' + _u(loop.iter) + '`')
+    cn, cv = (e.id for e in loop.target.elts)
+    lb = nolog(loop.body)
+    _need(len(lb) == 4, '_fit_columns: loop body has ' + str(len(lb)) + ' statements, expected 4')
+    d0 = lb[0]
+    _need(isinstance(d0, ast.Assign) and isinstance(d0.targets[0], ast.Name)
+          and _u(d0.value) == f'self._get_distribution_for_column({cn})', '_fit_columns: `' + _u(d0) + '`')
+    dist = d0.targets[0].id
+    u0 = lb[1]
+    _need(isinstance(u0, ast.Assign) and isinstance(u0.targets[0], ast.Name)
+          and _u(u0.value) == f'self._fit_column({cv}, {dist}, {cn})', '_fit_columns: `' + _u(u0) + '`')
+    uni = u0.targets[0].id
+    apps = {}
+    for s in lb[2:]:
+        _need(isinstance(s, ast.Expr) and isinstance(s.value, ast.Call) and isinstance(s.value.func, ast.Attribute)
+              and s.value.func.attr == 'append' and isinstance(s.value.func.value, ast.Name) and len(s.value.args) == 1
+              and not s.value.keywords, '_fit_columns: `' + _u(s) + '`')
+        apps[s.value.func.value.id] = _u(s.value.args[0])
+    _need(set(apps) == set(accs) and sorted(apps.values()) == sorted([cn, uni]), f'_fit_columns: appends {apps}')
+    lab_acc = next(a for a, v in apps.items() if v == cn)
+    uni_acc = next(a for a, v in apps.items() if v == uni)
+    r = b[3]
+    _need(isinstance(r, ast.Return) and _u(r.value) == f'({lab_acc}, {uni_acc})', '_fit_columns: return `' + _u(r) + '`')
+    # ---- fit: columns, univariates = self._fit_columns(X); self.columns = columns; self.univariates = univariates
+    _, _, g = P.find_method(GAUSS, 'GaussianMultivariate', 'fit')
+    decs = [_u(x) for x in g.decorator_list]
+    _need(decs == ['check_valid_values'], f'fit decorators {decs}')
+    _plain_args(g, ['self', 'X'])
+    fb = [_u(s) for s in nolog(_body(g))]
+    want = ['X = self._validate_input(X)', 'columns, univariates = self._fit_columns(X)', 'self.columns = columns',
+            'self.univariates = univariates', 'self.correlation = self._get_correlation(X)', 'self.fitted = True']
+    _need(fb == want, 'fit: statements are ' + ' ;; '.join(fb))
+    return f"""
+(* ---------- GaussianMultivariate._fit_columns, and fit storing its result in self.columns / self.univariates ---------- *)
+Section GmFit.
+  Variables label Col Dist Univ : Type.
+  Variable get_distribution_for_column : label -> Dist.        (* self._get_distribution_for_column *)
+  Variable fit_column : Col -> Dist -> label -> Univ.          (* self._fit_column(column, distribution, column_name) *)
+
+  (* for {cn}, {cv} in X.items(): ...; {lab_acc}.append({cn}); {uni_acc}.append({uni}) *)
+  Fixpoint gm_fit_columns_loop (items : list (label * Col)) ({lab_acc} : list label) ({uni_acc} : list Univ)
+    : list label * list Univ :=
+    match items with
+    | [] => ({lab_acc}, {uni_acc})
+    | item :: tl =>
+        let {cn} := fst item in
+        let {cv} := snd item in
+        let {dist} := get_distribution_for_column {cn} in
+        let {uni} := fit_column {cv} {dist} {cn} in
+        gm_fit_columns_loop tl ({lab_acc} ++ [{cn}]) ({uni_acc} ++ [{uni}])
+    end.
+
+  Definition gm_fit_columns (X : list (label * Col)) : list label * list Univ :=
+    gm_fit_columns_loop X [] [].
+
+  (* fit: columns, univariates = self._fit_columns(X); self.columns = columns; self.univariates = univariates *)
+  Definition gm_fit_columns_state (X : list (label * Col)) : list label * list Univ :=
+    let columns := fst (gm_fit_columns X) in
+    let univariates := snd (gm_fit_columns X) in
+    (columns, univariates).
+End GmFit.
+"""
+
+
 def generate_scores(ctx):
     """Write Gen_gm_scores.v; returns {piece: None | error}."""
     status, out = {}, SCORES_HEADER
@@ -447,7 +531,14 @@ def generate_sample(ctx):
         status['gaussian._get_normal_samples+sample'] = None
     except Exception as e:
         status['gaussian._get_normal_samples+sample'] = f'{type(e).__name__}: {e}'
-        out = f'(* UNSUPPORTED {str(e).replace("*)", "* )")} *)\n'
+        out = ('From Coq Require Import List Bool Arith.\nImport ListNotations.\n'
+               f'(* sample: UNSUPPORTED {str(e).replace("*)", "* )")} *)\n')
+    try:
+        out += translate_fit()
+        status['gaussian._fit_columns+fit'] = None
+    except Exception as e:
+        status['gaussian._fit_columns+fit'] = f'{type(e).__name__}: {e}'
+        out += f'(* fit: UNSUPPORTED {str(e).replace("*)", "* )")} *)\n'
     ctx.write('Gen_gm_sample.v', out)
     return status
 
@@ -590,6 +681,9 @@ def model_zoo(rng, quick):
             ('d4-name-truncated', 4, 40, (2,), (), lambda L: 'copulas.univariate.truncated_gaussian.TruncatedGaussian', None),
         ]
     out = []
+    reps = 1 if quick else 3                         # thorough: every configuration on three different tables
+    specs = [(name if r == 0 else f'{name}#{r}', d, n + 7 * r, const, positive, dist, labels)
+             for r in range(reps) for (name, d, n, const, positive, dist, labels) in specs]
     for name, d, n, const, positive, dist, labels in specs:
         lab = list(range(d)) if labels == 'int' else (labels or [chr(ord('a') + j) for j in range(d)])
         df = make_table(rng, d, n, const, positive, labels=[str(x) for x in lab])
